@@ -60,6 +60,11 @@ CLAIMS = {
         text="Containment, overlap, before, hull are TLA+ operators on ranges and merge / concat / + are operators on origin terms; TLAPS proves the 13 interval-law obligations for all naturals (partial order of containment, symmetric overlap incl. touching, Lt, hull contains both operands / commutative / associative / idempotent / smallest) and TLC re-checks them plus flatness of merge / concat on the grid. Every pair and triple of the 21 ranges on 0..5, every point / range construction incl. ill-formed ones, every tuple of up to 4 of 8 origin atoms over 3 sources (multi-origin operands as produced by merge) and get_raw for every range over texts of length <= 6 is exported with its expected result and replayed (results abstracted by type, source, range, member order; source sets; fqn; slices). Ranges on indices up to 2^30 and operand tuples up to 6 are recorded and validated by Trace_Origin.tla.",
         note="Trusted: TLAPS back ends (SMT), TLC. fqn punctuation is rendered by the driver from the spec's member list; user-built nested multi-origins are outside the stated precondition.",
         design="6 C15"),
+    "C16": dict(
+        technique="TLA+ state machine of the process-global option store (SerOpts.tla: Begin / Emit / Fail / End) model-checked with TLC incl. mutant variants; every call sequence replayed with failure injection; recorded call sequences validated by a TLA+ trace specification",
+        text="The option store is a TLA+ machine: Begin merges the call's options into the global store, Emit is one nested object seeing the store, Fail raises at a chosen nested object, End returns; TLC checks Clean (store empty between calls) and Sees (every nested object sees exactly the call's options) over all call sequences x option subsets x failure points, and that the spec variants modelling the two calibration mutants violate Clean. Every completed sequence is replayed on a 3-level tree with an armable failing property / corrupted payloads through all eight entry points: outcome, per-object output features for every option, and a default probe after every call. Random 25-call sequences are recorded (what each nested node exhibited, probe clean) and validated by Trace_SerOpts.tla.",
+        note="Trusted: TLC; feature extraction of the driver. The default-tagging clause is asserted for calls without the test dialect and without tag suppression; under the test dialect index-based sources are not observable (masked in the trace spec).",
+        design="6 C16"),
     "C10": dict(
         technique="TLA+ action properties (Immutable, MembershipFrame, FailFrame) on Registry.tla + Observe actions replayed with per-step fingerprints of every live node",
         text="In the Registry machine no action changes the record of a surviving slot (Immutable) and registry membership changes only in detach / detach_self / replace on the receiver's subtree (MembershipFrame); Observe actions stand for every read-only operation kind (traversals, Tree queries, xpath, patterns, visitors, transformers, comparison, hashing, rich printing, accessors, (de)serialization, setattr / delattr on every field) and are UNCHANGED. TLC exports every transition; the driver fingerprints every live node before each call and compares after it, and compares the whole abstract state with the spec's. Recorded histories are checked the same way at every step.",
